@@ -241,12 +241,78 @@ def mbLoop (mb : Nat → List (V3 α) → Option (V3 α × α)) (rand : Nat → 
 /-- `max_attempts = 10` -/
 def maxAttempts : Nat := 10
 
-/-- `Polygon.minimal_bounding_circle` / `Polyhedron.minimal_bounding_sphere` -/
-def minimalBounding (mb : Nat → List (V3 α) → Option (V3 α × α)) (rand : Nat → Quat α)
+/-- the loop and the tail of `minimal_bounding_circle/sphere` around an arbitrary `try` block
+`attempt : attempt number → points → Option (centre, r²)` (`none` = the block raised `LinAlgError`) -/
+def minimalBoundingWith (attempt : Nat → List (V3 α) → Option (V3 α × α)) (rand : Nat → Quat α)
     (V : List (V3 α)) : Except String (Ball α) := do
-  let (c, r2, cur) ← mbLoop mb rand V maxAttempts 0 Quat.one V
+  let (c, r2, cur) ← mbLoop attempt rand V maxAttempts 0 Quat.one V
   let center := Quat.rotate (Quat.conj cur) c
   mkBall (Scalar.sqrt r2) center
+
+/-! ### `coxeter/shapes/utils.py::_is_minimal_bounding_ball` (repair da3be45)
+
+`scipy.optimize.nnls(a, b)` is external: it enters as a function of the data that determine `a`
+(the boundary points, the centre, `r2`) returning `(weights, residual)`; the code uses only the
+residual. The three tolerances of the code are parameters of `isMinimalBoundingBallTol`, so that the
+exact-arithmetic version (all tolerances `0`) can be stated. -/
+
+/-- `np.isfinite(x)` (`x - x == 0` fails exactly for `inf` / `nan`; always true over ℚ, ℝ) -/
+def isFinite (x : α) : Bool := Scalar.eqb (x - x) (lit 0)
+
+/-- `on_boundary = points[d2 >= r2 * (1 - 1e-6)]` -/
+def onBoundary (τb : α) (points : List (V3 α)) (center : V3 α) (r2 : α) : List (V3 α) :=
+  points.filter fun p => decide (r2 * (lit 1 - τb) ≤ V3.normSq (p - center))
+
+/-- `‖a w − b‖²` for `a = vstack([(on_boundary − center).T / sqrt(r2), ones])`, `b = (0,0,0,1)`:
+`‖Σ w_i (p_i − c)‖² / r2 + (Σ w_i − 1)²` (weights paired with the boundary points in order) -/
+def nnlsResidSq (bd : List (V3 α)) (center : V3 α) (r2 : α) (w : List α) : α :=
+  let sup := List.zip w bd
+  V3.normSq (V3.sum (sup.map fun s => V3.smul s.1 (s.2 - center))) / r2
+    + sqr (Scalar.sum (sup.map (·.1)) - lit 1)
+
+def isMinimalBoundingBallTol (τc τb τr : α) (nnls : List (V3 α) → V3 α → α → List α × α)
+    (points : List (V3 α)) (center : V3 α) (r2 : α) : Bool :=
+  let d2 := points.map fun p => V3.normSq (p - center)
+  -- if not np.all(np.isfinite(d2)) or not np.isfinite(r2) or r2 < 0: return False
+  if !(d2.all isFinite) || !(isFinite r2) || decide (r2 < lit 0) then false
+  -- if r2 == 0: return bool(np.all(d2 == 0))
+  else if Scalar.eqb r2 (lit 0) then d2.all fun d => Scalar.eqb d (lit 0)
+  -- if np.max(d2) > r2 * (1 + 1e-8): return False
+  else if r2 * (lit 1 + τc) < listMax d2 then false
+  else
+    let on_boundary := onBoundary τb points center r2
+    -- if len(on_boundary) == 0: return False
+    if on_boundary.isEmpty then false
+    -- _, residual = nnls(a, b); return bool(residual <= 1e-6)
+    else decide ((nnls on_boundary center r2).2 ≤ τr)
+
+/-- the tolerances of the code: `1e-8`, `1e-6`, `1e-6` -/
+def isMinimalBoundingBall (nnls : List (V3 α) → V3 α → α → List α × α)
+    (points : List (V3 α)) (center : V3 α) (r2 : α) : Bool :=
+  isMinimalBoundingBallTol (q 1 100000000) (q 1 1000000) (q 1 1000000) nnls points center r2
+
+/-- the `try` block of the repaired loop:
+`center, r2 = miniball.get_bounding_ball(vertices)`;
+`if not _is_minimal_bounding_ball(vertices, center, r2): raise np.linalg.LinAlgError(...)`.
+`none` = `LinAlgError` (raised by miniball or by the test) -/
+def tryBlockTol (τc τb τr : α) (mb : Nat → List (V3 α) → Option (V3 α × α))
+    (nnls : Nat → List (V3 α) → V3 α → α → List α × α) : Nat → List (V3 α) → Option (V3 α × α) :=
+  fun attempt verts =>
+    match mb attempt verts with
+    | some (c, r2) =>
+      if isMinimalBoundingBallTol τc τb τr (nnls attempt) verts c r2 then some (c, r2) else none
+    | none => none
+
+def minimalBoundingTol (τc τb τr : α) (mb : Nat → List (V3 α) → Option (V3 α × α))
+    (nnls : Nat → List (V3 α) → V3 α → α → List α × α) (rand : Nat → Quat α) (V : List (V3 α)) :
+    Except String (Ball α) :=
+  minimalBoundingWith (tryBlockTol τc τb τr mb nnls) rand V
+
+/-- `Polygon.minimal_bounding_circle` / `Polyhedron.minimal_bounding_sphere` (as repaired in da3be45) -/
+def minimalBounding (mb : Nat → List (V3 α) → Option (V3 α × α))
+    (nnls : Nat → List (V3 α) → V3 α → α → List α × α) (rand : Nat → Quat α) (V : List (V3 α)) :
+    Except String (Ball α) :=
+  minimalBoundingTol (q 1 100000000) (q 1 1000000) (q 1 1000000) mb nnls rand V
 
 /-! ### curved shapes -/
 
@@ -266,5 +332,24 @@ def ellipsoidBounding (a b c : α) (cen : V3 α) : Except String (Ball α) :=
 /-- `Ellipsoid.maximal_(centered_)bounded_sphere`: `Sphere(min(a, b, c), centroid)` -/
 def ellipsoidBounded (a b c : α) (cen : V3 α) : Except String (Ball α) :=
   mkBall (Scalar.min (Scalar.min a b) c) cen
+
+/-! ### glue: `*_radius` getters, base-class getters, deprecated aliases -/
+
+/-- every `<ball>_radius` getter: `return self.<ball>.radius` (an exception of the ball getter
+propagates unchanged) -/
+def radiusOf (b : Except String (Ball α)) : Except String α :=
+  match b with
+  | .ok B => .ok B.radius
+  | .error e => .error e
+
+/-- the ball getters of `Shape2D` / `Shape3D` that a class does not override
+(e.g. `Polygon.maximal_centered_bounded_circle`, `Polyhedron.maximal_bounded_sphere`):
+`raise NotImplementedError(...)` -/
+def notImplemented : Except String (Ball α) := .error "NotImplementedError"
+
+/-- the deprecated aliases (`bounding_sphere`, `bounding_circle`, `insphere_from_center`,
+`circumsphere_from_center`, `incircle_from_center`, and `Circle.maximal_bounding_circle`):
+`warnings.warn(...)`, then `return self.<new name>` -/
+def deprecatedAlias (b : Except String (Ball α)) : Except String (Ball α) := b
 
 end Balls
